@@ -31,13 +31,14 @@ type spec struct {
 	Cfg      hist.Config `json:"cfg"`
 	Sched    Schedule    `json:"sched"`
 	MetaLoss bool        `json:"meta_loss,omitempty"` // history may contain one restart with the local meta directory lost (exercises the L0 download path under faults)
+	Demo     string      `json:"demo,omitempty"`      // scripted demonstration history (pinned at the front of the case list)
 }
 
 func init() {
 	vf.Register(&vf.Check{
 		ID:    "C05",
 		Level: "fault_enumeration",
-		Rule: "generated E-HIST histories (application writes incl. rollbacks with spilled frames, DDL, VACUUM, application checkpoints, open write txn / reader across litestream ops; DB.Sync, Replica.Sync, SyncAndWait, Checkpoint(mode), Snapshot, Compact(1..3), snapshot retention + EnforceRetentionByTXID(level>=1), Close with shutdown retry (ShutdownSyncTimeout 50ms) followed by Open of the same object or a new DB object) " +
+		Rule: "generated E-HIST histories (application writes incl. rollbacks with spilled frames, DDL, VACUUM, application checkpoints, open write txn / reader across litestream ops; DB.Sync, DB.Sync + Replica.Sync with retries (monitor tick), SyncAndWait, Checkpoint(mode), Snapshot, Compact(1..3), snapshot retention + EnforceRetentionByTXID(level>=1), Close with shutdown retry (ShutdownSyncTimeout 50ms) followed by Open of the same object or a new DB object) " +
 			"run over a fault-injecting ReplicaClient proxy around file.ReplicaClient. Each client call draws its fault from a seeded schedule: class {5%,30%,80%,bursts} x target {every op type, list, open, write, delete}; " +
 			"faults: list/open/write/delete fail-before-effect, write/delete fail-after-effect (performed, error returned), short-read of the upload reader at byte k (partial body handed to the store or dropped), download reader error / premature EOF at byte o. " +
 			"Oracles: after EVERY client call the level-0 directory of the store is contiguous 1..max with single-TXID files, and at the start of and after every client call Replica.Pos() (what Store.SyncDB reports as ReplicatedTXID) does not exceed what the store holds; after every history step Restore(latest) through a plain file client succeeds (once anything is stored), is a committed ledger state (integrity ok, no poison, dump hash == H_k) and k never regresses; " +
@@ -59,16 +60,37 @@ func cases(run *vf.Run) ([]json.RawMessage, error) {
 	classes := []Schedule{{Rate: 0.05}, {Rate: 0.30}, {Rate: 0.80}, {Burst: true}}
 	targets := []string{"", OpWrite, "", OpList, OpWrite, OpOpen, "", OpDelete, "", OpWrite}
 	var out []json.RawMessage
+	// demonstration case: one premature EOF on the baseline download after the
+	// local meta directory was lost (scripted, independent of the seed)
+	out = append(out, vf.Spec(spec{Seed: 1, Ops: 0, Cfg: hist.Config{PageSize: 4096, MinCheckpointPageN: 1000, CheckpointInterval: int64(24 * time.Hour)}, Sched: Schedule{Target: OpOpen}, Demo: "baseline-download-premature-eof"}))
 	for i := 0; i < n; i++ {
 		rng := rand.New(rand.NewSource(vf.SubSeed(run.Seed, "C05", i)))
 		cfg := hist.RandomConfig(rng)
 		cfg.PageSize = hist.PageSizes[(i*3+i/8)%len(hist.PageSizes)]
 		sc := classes[i%len(classes)]
 		sc.Target = targets[(i/len(classes))%len(targets)]
-		s := spec{Seed: vf.SubSeed(run.Seed, "C05-case", i), Ops: 40 + rng.Intn(30), Cfg: cfg, Sched: sc, MetaLoss: i%5 == 4}
+		s := spec{Seed: vf.SubSeed(run.Seed, "C05-case", i), Ops: 60 + rng.Intn(40), Cfg: cfg, Sched: sc, MetaLoss: i%5 == 4}
 		out = append(out, vf.Spec(s))
 	}
 	return out, nil
+}
+
+// stuckReason fingerprints a replica that does not catch up. One cause is
+// known: the baseline level-0 file fetched from the replica after the local
+// meta directory was lost is installed without validation, so a download that
+// ended early (clean EOF) leaves a truncated local file that every later sync
+// trips over.
+func stuckReason(e *hist.Env) (key, why string) {
+	store := map[string]int64{}
+	for _, f := range oracle.ListLevel(e.RepPath, 0) {
+		store[f.String()] = f.Size
+	}
+	for _, f := range oracle.ListLevel(e.LS.MetaPath(), 0) {
+		if sz, ok := store[f.String()]; ok && f.Size < sz {
+			return "no-catch-up:local-l0-truncated-download", fmt.Sprintf(" (local %s has %d bytes, the replica's copy %d: a download that ended early was installed as the local baseline)", f, f.Size, sz)
+		}
+	}
+	return "no-catch-up", ""
 }
 
 // l0Contiguous checks refuting event (a) on the store's own directory.
@@ -315,45 +337,94 @@ func runCase(run *vf.Run, raw json.RawMessage, dir string) *vf.Result {
 
 	px.Enable(true)
 	var ops []string
+	if s.Demo == "baseline-download-premature-eof" {
+		// three replicated transactions, restart without the local meta
+		// directory, the baseline fetch ends early once; no other fault ever
+		px.Enable(false)
+		for i := 0; i < 3; i++ {
+			px.BeginStep(i, int64(i))
+			if _, err := e.AppWriteKind("ins-small"); err != nil {
+				res.HarnessErr = err.Error()
+				return res
+			}
+			if _, ok := syncAndWait(fmt.Sprintf("demo op%d SyncAndWait", i)); !ok {
+				return res
+			}
+			flush()
+		}
+		px.BeginStep(3, 3)
+		if !closeAndReopen("demo op3", 2) {
+			return res
+		}
+		px.Force(OpOpen, 0, KindEarlyEOF, 60)
+		if _, err := e.AppWriteKind("ins-small"); err != nil {
+			res.HarnessErr = err.Error()
+			return res
+		}
+		if _, ok := syncAndWait("demo op4 SyncAndWait"); !ok {
+			return res
+		}
+		ops = append(ops, "demo")
+		if !flush() || !stepCheck("demo") {
+			return res
+		}
+	}
 	metaLossLeft := 0
 	if s.MetaLoss {
 		metaLossLeft = 1
 	}
+	// schedules that target downloads get histories that download more: the
+	// only readers of the store are compactions above level 1 and the baseline
+	// fetch after the local meta directory was lost
+	openBias := s.Sched.Target == OpOpen
+	if openBias {
+		metaLossLeft = 3
+	}
 	for i := 0; i < s.Ops; i++ {
 		px.BeginStep(i, vf.SubSeed(s.Seed, "step", i))
+		callsBefore := px.NumCalls()
 		r := rng.Intn(40)
 		var op string
 		e.Logf("step %d", i)
 		switch {
-		case r < 10:
+		case r < 8:
 			op = "write"
 			if _, err := e.AppWrite(); err != nil {
 				res.HarnessErr = err.Error()
 				return res
 			}
-		case r < 11:
+		case r < 9:
 			op = "maint"
 			e.Maint()
-		case r < 13:
+		case r < 11:
 			op = "appckpt"
 			e.AppCheckpoint(hist.CheckpointModes[rng.Intn(4)])
-		case r < 15:
+		case r < 13:
 			op = "otx"
 			if err := e.ToggleOpenTx(); err != nil {
 				res.HarnessErr = err.Error()
 				return res
 			}
-		case r < 16:
+		case r < 14:
 			op = "reader"
 			e.ToggleReader()
-		case r < 19:
+		case r < 16:
 			op = "sync"
 			err := e.LS.Sync(ctx)
 			e.Logf("DB.Sync err=%v", err)
 		case r < 22:
-			op = "rsync"
-			err := e.LS.Replica.Sync(ctx)
-			e.Logf("Replica.Sync err=%v", err)
+			// what the monitors do: a database sync, then the replica sync, retried on failure
+			op = "tick"
+			err := e.LS.Sync(ctx)
+			e.Logf("DB.Sync err=%v", err)
+			for try := 0; try < 3; try++ {
+				err := e.LS.Replica.Sync(ctx)
+				e.Logf("Replica.Sync err=%v", err)
+				if err == nil {
+					break
+				}
+				res.Count("replica_sync_failed", 1)
+			}
 		case r < 23:
 			mode := hist.CheckpointModes[rng.Intn(4)]
 			op = "ckpt-" + mode
@@ -370,6 +441,9 @@ func runCase(run *vf.Run, raw json.RawMessage, dir string) *vf.Result {
 			}
 		case r < 29:
 			lvl := 1 + rng.Intn(3)
+			if openBias && lvl == 1 && rng.Intn(2) == 0 {
+				lvl = 2
+			}
 			op = fmt.Sprintf("compact%d", lvl)
 			_, err := e.LS.Compact(ctx, lvl)
 			e.Logf("Compact(%d) err=%v", lvl, err)
@@ -391,7 +465,7 @@ func runCase(run *vf.Run, raw json.RawMessage, dir string) *vf.Result {
 			}
 		case r < 32:
 			how := rng.Intn(2)
-			if metaLossLeft > 0 && rng.Intn(3) == 0 {
+			if metaLossLeft > 0 && (rng.Intn(3) == 0 || openBias) {
 				how = 2
 				metaLossLeft--
 			}
@@ -412,6 +486,12 @@ func runCase(run *vf.Run, raw json.RawMessage, dir string) *vf.Result {
 		ops = append(ops, op)
 		if !flush() {
 			return res
+		}
+		// the store changes only through client calls: a step without any
+		// cannot change what Restore(latest) returns
+		if px.NumCalls() == callsBefore {
+			res.Count("steps_without_client_calls", 1)
+			continue
 		}
 		if !stepCheck(fmt.Sprintf("after op%d (%s)", i, op)) {
 			return res
@@ -443,7 +523,8 @@ func runCase(run *vf.Run, raw json.RawMessage, dir string) *vf.Result {
 	}
 	res.Evals++
 	if !caughtUp {
-		res.Violate("no-catch-up", "faults stopped, yet SyncAndWait failed 3 times in a row: %v [%s; %s]", lastErr, s.Sched, s.Cfg)
+		key, why := stuckReason(e)
+		res.Violate(key, "faults stopped, yet SyncAndWait failed 3 times in a row: %v%s [%s; %s]", lastErr, why, s.Sched, s.Cfg)
 		return res
 	}
 	pos, _ := e.LS.Pos()
